@@ -31,6 +31,10 @@ import multiprocessing as mp
 
 VERIF = os.path.dirname(os.path.dirname(os.path.abspath(__file__)))
 FINDINGS_FILE = os.path.join(VERIF, "known_findings.txt")
+# evidence/replays of runs against another copy of the repository (mutation experiments) never overwrite
+# the evidence of /repo
+_REPO = os.environ.get("XITORCH_REPO", "/repo")
+OUT = os.environ.get("VERIF_OUT") or (VERIF if os.path.realpath(_REPO) == "/repo" else "/var/tmp/xv-out")
 CASE_TIMEOUT_S = int(os.environ.get("VERIF_CASE_TIMEOUT", "600"))
 
 
@@ -220,7 +224,7 @@ def _report(mod, tier, seed, case_list, results, capped, wall):
     # write replays for unknown violations, dedupe on failure class
     lines = []
     seen_fail = {}
-    rdir = os.path.join(VERIF, "replays", pid)
+    rdir = os.path.join(OUT, "replays", pid)
     for (cfg_at, failure, detail, cfg, at) in unknown:
         key = failure
         seen_fail.setdefault(key, 0)
@@ -278,8 +282,8 @@ def _report(mod, tier, seed, case_list, results, capped, wall):
         "coverage": cov, "assumptions": list(getattr(mod, "ASSUMPTIONS", [])),
         "wall_s": round(wall, 2), "violations": len(unknown),
     }
-    os.makedirs(os.path.join(VERIF, "evidence"), exist_ok=True)
-    with open(os.path.join(VERIF, "evidence", pid + ".json"), "w") as f:
+    os.makedirs(os.path.join(OUT, "evidence"), exist_ok=True)
+    with open(os.path.join(OUT, "evidence", pid + ".json"), "w") as f:
         json.dump(ev, f, indent=1, default=str)
 
     print("%s tier=%s seed=%s cases=%d/%d executions=%d distinct_nontrivial=%d violations=%d known=%d wall=%.1fs hist=%s" % (
